@@ -248,30 +248,6 @@ def _address(ctx, repo, tm):
     at = ctx.need(repo.cls("bromelia.types.AddressType"), "AddressType")
     fn = ctx.need(at.methods.get("parser_data"), "AddressType.parser_data")
     construct = f"{at.qual}.parser_data"
-    fam = {}
-    for n in ast.walk(fn):
-        if isinstance(n, ast.If) and isinstance(n.test, ast.Call) and call_name(n.test) == "isinstance" and len(n.test.args) == 2:
-            cls = ast.unparse(n.test.args[1]).split(".")[-1]
-            for s in n.body:
-                if isinstance(s, ast.Assign) and isinstance(s.targets[0], ast.Name):
-                    v = repo.fold(tm, s.value)
-                    if isinstance(v, bytes):
-                        fam[cls] = (s.targets[0].id, v)
-    for cls, want in (("IPv4Address", b"\x00\x01"), ("IPv6Address", b"\x00\x02")):
-        got = fam.get(cls)
-        ctx.decide(got is not None and got[1] == want, "R-TABLE/address-family", construct, at.where(fn),
-                   f"{cls} <-> family {want.hex()}",
-                   f"{cls} is paired with family code {got[1].hex() if got else None}, IANA address family is {want.hex()}",
-                   key=f"family:{cls}")
-    famvars = {v[0] for v in fam.values()}
-    cat = [n for n in ast.walk(fn) if isinstance(n, ast.Assign) and isinstance(n.value, ast.BinOp) and isinstance(n.value.op, ast.Add)]
-    ok = False
-    for c in cat:
-        l, r = c.value.left, c.value.right
-        if isinstance(l, ast.Name) and l.id in famvars and ast.unparse(r).endswith(".packed"):
-            ok = True
-    ctx.decide(ok and len(famvars) == 1, "R-TABLE/address-layout", construct, at.where(fn), "data = family + packed address",
-               "the stored value is not `family code + packed address` (family first)", key="layout")
     # text path on terms: the address whose class selects the family and whose `.packed` is stored is exactly
     # ipaddress.ip_address(<the given literal>) - not a value derived from it
     from .. import sym as _sa
@@ -285,6 +261,7 @@ def _address(ctx, repo, tm):
         return None
     rows_ = []
     okt = True
+    fam_codes, layouts = {}, []
     for p_ in _sa.Interp(fold=lambda e: repo.fold(tm, e), hook=hook_).run(strip_doc(fn.body), _sa.PathState({pd_: DATA_}, [], [])):
         if p_.term == "raise":
             continue
@@ -298,6 +275,20 @@ def _address(ctx, repo, tm):
             want = ("op", "Add", b"\x00\x02", ("attr", IP_, "packed"))
         rows_.append(_sa.show(v)[:90])
         okt = okt and want is not None and v == want
+        for cls_, hit_ in (("IPv4Address", fam4), ("IPv6Address", fam6)):
+            if hit_:
+                code_ = v[2] if isinstance(v, tuple) and len(v) == 4 and v[:2] == ("op", "Add") and isinstance(v[2], bytes) else None
+                fam_codes.setdefault(cls_, set()).add(code_)
+        layouts.append(isinstance(v, tuple) and len(v) == 4 and v[:2] == ("op", "Add") and isinstance(v[2], bytes) and len(v[2]) == 2
+                       and isinstance(v[3], tuple) and v[3][:1] == ("attr",) and v[3][2] == "packed")
+    for cls, want in (("IPv4Address", b"\x00\x01"), ("IPv6Address", b"\x00\x02")):
+        got = fam_codes.get(cls, set())
+        ctx.decide(got == {want}, "R-TABLE/address-family", construct, at.where(fn),
+                   f"{cls} <-> family {want.hex()}",
+                   f"{cls} is paired with family code {sorted(g.hex() if isinstance(g, bytes) else None for g in got) or None}, IANA address family is {want.hex()}",
+                   key=f"family:{cls}")
+    ctx.decide(bool(layouts) and all(layouts), "R-TABLE/address-layout", construct, at.where(fn), "data = family + packed address",
+               "the stored value is not `family code + packed address` (family first)", key="layout")
     ctx.decide(okt and bool(rows_), "R-TABLE/address-text", construct, at.where(fn),
                "a textual address is stored as family(ip) + ip.packed with ip = ipaddress.ip_address(text)",
                f"for a textual address the stored value is {rows_}: not `family + packed` of ipaddress.ip_address(<the text>) itself - the "
